@@ -81,6 +81,9 @@ def _incremental(ctx, rng, files):
     g = parso.load_grammar(version=v)
     base = G.structured_program(rng) if rng.random() < .5 else G.corpus_slice(rng, files, maxlines=40, inject=(0, 1))
     nl = rng.choice(['\n', '\n', '\r', '\r', '\r\n'])
+    if rng.random() < .25:
+        base = ''.join(G.inflate(G.split_keep(base), rng))       # a very long token somewhere, to be moved by the edits
+        ctx.count('incremental_bases_with_a_long_token')
     cur = G.split_keep(base.replace('\r\n', '\n').replace('\n', nl))
     path = '/virt/c03/%d.py' % rng.getrandbits(40)
     try:
